@@ -140,7 +140,7 @@ MAX_ATTRIBUTED_CRASHES = 6
 
 def _exec_chunked(binp, jobs, outdir, tag, threads, timeout, stack_mb, job_timeout_ms):
     """interpreters are not reclaimed completely when dropped (closures and their frames refer to each other), so one
-    process is given a bounded amount of work: at most ~250k steps and ~20k interpreters"""
+    process is given a bounded amount of work: at most ~250k steps and ~12k interpreters"""
     status, res = "ok", {}
     start = 0
     while start < len(jobs):
@@ -148,7 +148,7 @@ def _exec_chunked(binp, jobs, outdir, tag, threads, timeout, stack_mb, job_timeo
         while end < len(jobs):
             st_ = jobs[end].get("steps", [])
             n_ = sum(1 for x in st_ if x.get("op") == "new") or 1
-            if end > start and (steps + len(st_) > 250000 or news + n_ > 20000):
+            if end > start and (steps + len(st_) > 250000 or news + n_ > 12000):
                 break
             steps += len(st_) or 1; news += n_; end += 1
         st, r = _exec_harness(binp, jobs[start:end], outdir, tag, threads, timeout, stack_mb, job_timeout_ms=job_timeout_ms)
